@@ -35,14 +35,35 @@ def is_ordered_collect(t):
 def run(rep):
     F = facts.load("A")
     rep.configs = ["A(core,json)", "B(core,json,sync)"]
-    rep.explanation = (
-        "Purity and determinism are effect properties: they hold for every schedule and history if the code has no way to carry state "
-        "between calls or to observe ambient inputs.  The check enumerates, over the type-checked program, every unsafe block, static, "
-        "interior-mutability type, ambient-input call and hash-container iteration of the crate and requires each to be absent or to be in "
-        "an order-insensitive form; it also requires the matching API to take the rule by shared reference and (configuration diff) the "
-        "`sync` feature to change nothing but trait bounds.  Regex/aho-corasick internals and tracing events are trusted to be "
-        "observationally pure."
-    )
+    _explain(rep)
+    scan(F, rep, ENGINE_FILES)
+    _shared_and_sync(F, rep)
+    if rep.tier == "thorough":
+        poscontrol(rep)
+
+
+def poscontrol(rep):
+    """Positive controls: every zero-expected rule must fire on the fixture crate (compiled through the same driver)."""
+    import core
+    import os
+    fx = os.path.join(core.VERIF, "fixtures", "poscontrol")
+    try:
+        FX = facts.load_crate(fx, "poscontrol")
+    except facts.BuildError as e:
+        rep.lost("POSCONTROL", "POSCONTROL/build", "fixture crate builds", str(e)[-200:])
+        return
+    sub = core.Report("C12-fixture", rep.tier)
+    scan(FX, sub, ("src/lib.rs",))
+    rep.describe("POSCONTROL", "each zero-expected rule fires on the positive-control fixture (the matcher is alive)")
+    fired = {}
+    for i in sub.instances:
+        if i.status != "discharged":
+            fired.setdefault(i.rule, []).append(i.key)
+    for rule in ("EFFECT-UNSAFE", "EFFECT-STATIC", "EFFECT-INTERIOR", "EFFECT-AMBIENT", "HASHITER"):
+        rep.check(rule in fired, "POSCONTROL", "POSCONTROL/" + rule, "fixtures/poscontrol/src/lib.rs", "rule %s reports the forbidden construct planted in the fixture" % rule, str(fired.get(rule, [])[:3]))
+
+
+def scan(F, rep, ENGINE_FILES):
     # ---------------------------------------------------------------- EFFECT-UNSAFE
     rep.describe("EFFECT-UNSAFE", "no `unsafe` block in hand-written code and no `static mut`")
     nblocks = 0
@@ -93,7 +114,6 @@ def run(rep):
                 rep.bad("EFFECT-INTERIOR", "EFFECT-INTERIOR/thread-local/" + name, n["sp"], "no thread-local state", show(n)[:80])
             if n.get("k") == "Static" and not n.get("exp") and n.get("path") not in lazy_paths:
                 rep.bad("EFFECT-INTERIOR", "EFFECT-INTERIOR/static-ref/" + name, n["sp"], "hand-written code does not reference statics", n.get("path"))
-    rep.floor("EFFECT-INTERIOR", 40)
 
     # ---------------------------------------------------------------- EFFECT-AMBIENT
     rep.describe("EFFECT-AMBIENT", "no call into time/env/process/thread/net/rand/atomics/raw pointers; std::fs only in Rule::load")
@@ -115,24 +135,6 @@ def run(rep):
             if hit:
                 rep.bad("EFFECT-AMBIENT", "EFFECT-AMBIENT/%s/%s" % (name, fn), n["sp"], "no ambient input or hidden state", fn)
     rep.ok("EFFECT-AMBIENT", "EFFECT-AMBIENT/calls", "crate", "%d resolved call sites inspected" % ncalls)
-    rep.floor("EFFECT-AMBIENT", 2)
-
-    # ---------------------------------------------------------------- EFFECT-SHARED
-    rep.describe("EFFECT-SHARED", "matches/validate/solve*/match_*/search/slow_aho never take &mut to rule data")
-    sigs = {f["path"]: f for f in F.items["fns"]}
-    for nm in ("rule::Rule::matches", "rule::Rule::validate", "solver::solve", "solver::solve_expression", "solver::match_all", "solver::match_of",
-               "solver::search", "solver::slow_aho", "core::solve", "core::solve_expression"):
-        s = sigs.get(nm)
-        if s is None:
-            rep.lost("EFFECT-SHARED", "EFFECT-SHARED/anchor/" + nm, "function " + nm)
-            continue
-        rep.check("&mut" not in s["sig"] and "&'a mut" not in s["sig"], "EFFECT-SHARED", "EFFECT-SHARED/" + nm, s["sp"], "no mutable borrow in the signature", s["sig"])
-    # and no function reachable in the solver takes &mut Expression / Detection / Rule at all
-    for s in F.items["fns"]:
-        if s["path"].startswith("solver::") or "solver::" in s["path"]:
-            rep.check(not re.search(r"&(?:'\w+ )?mut (?:parser::Expression|rule::Detection|rule::Rule)", s["sig"]), "EFFECT-SHARED", "EFFECT-SHARED/solver-fn/" + s["path"], s["sp"],
-                      "solver functions never borrow rule data mutably", s["sig"])
-    rep.floor("EFFECT-SHARED", 12)
 
     # ---------------------------------------------------------------- HASHITER
     rep.describe("HASHITER", "an iteration over a HashMap/HashSet in engine code must be collected straight into a map/set or folded order-insensitively")
@@ -211,7 +213,37 @@ def run(rep):
                     rep.bad("HASHITER", "HASHITER/%s/handed-to/%s" % (name, fn.split("::")[-2] + "::" + fn.split("::")[-1]), n["sp"],
                             "a hash container is not handed to code outside the crate that may iterate it", "%s receives a %s" % (fn, t[:50]))
     rep.ok("HASHITER", "HASHITER/sites", "engine", "%d hash-container iteration sites in engine code" % nsites)
-    rep.floor("HASHITER", 4)
+
+
+
+def _explain(rep):
+    rep.explanation = (
+        "Purity and determinism are effect properties: they hold for every schedule and history if the code has no way to carry state "
+        "between calls or to observe ambient inputs.  The check enumerates, over the type-checked program, every unsafe block, static, "
+        "interior-mutability type, ambient-input call and hash-container iteration of the crate and requires each to be absent or to be in "
+        "an order-insensitive form; it also requires the matching API to take the rule by shared reference and (configuration diff) the "
+        "`sync` feature to change nothing but trait bounds.  Regex/aho-corasick internals and tracing events are trusted to be "
+        "observationally pure."
+    )
+
+
+def _shared_and_sync(F, rep):
+    # ---------------------------------------------------------------- EFFECT-SHARED
+    rep.describe("EFFECT-SHARED", "matches/validate/solve*/match_*/search/slow_aho never take &mut to rule data")
+    sigs = {f["path"]: f for f in F.items["fns"]}
+    for nm in ("rule::Rule::matches", "rule::Rule::validate", "solver::solve", "solver::solve_expression", "solver::match_all", "solver::match_of",
+               "solver::search", "solver::slow_aho", "core::solve", "core::solve_expression"):
+        s = sigs.get(nm)
+        if s is None:
+            rep.lost("EFFECT-SHARED", "EFFECT-SHARED/anchor/" + nm, "function " + nm)
+            continue
+        rep.check("&mut" not in s["sig"] and "&'a mut" not in s["sig"], "EFFECT-SHARED", "EFFECT-SHARED/" + nm, s["sp"], "no mutable borrow in the signature", s["sig"])
+    # and no function reachable in the solver takes &mut Expression / Detection / Rule at all
+    for s in F.items["fns"]:
+        if s["path"].startswith("solver::") or "solver::" in s["path"]:
+            rep.check(not re.search(r"&(?:'\w+ )?mut (?:parser::Expression|rule::Detection|rule::Rule)", s["sig"]), "EFFECT-SHARED", "EFFECT-SHARED/solver-fn/" + s["path"], s["sp"],
+                      "solver functions never borrow rule data mutably", s["sig"])
+    rep.floor("EFFECT-SHARED", 12)
 
     # ---------------------------------------------------------------- SYNC-BOUNDS (config diff)
     rep.describe("SYNC-BOUNDS", "configuration diff: with feature `sync` the only differences are Send+Sync supertraits/bounds; function bodies are identical")
@@ -233,6 +265,9 @@ def run(rep):
     except facts.BuildError as e:
         rep.lost("SYNC-BOUNDS", "SYNC-BOUNDS/build", "configuration B builds", str(e)[-300:])
     rep.floor("SYNC-BOUNDS", 5)
+    rep.floor("EFFECT-INTERIOR", 40)
+    rep.floor("EFFECT-AMBIENT", 2)
+    rep.floor("HASHITER", 4)
     rep.exhaustive = True
     rep.trusted.append("regex / aho-corasick internal caches are semantically transparent; tracing events do not feed back into results")
     rep.assumptions.append("user-supplied Document/Object/Array implementations are pure functions of the key")
